@@ -86,6 +86,9 @@ pub struct ListCase {
     pub pretty: bool,
     pub extras: bool,
     pub fault: ListFault,
+    /// how the response is delivered: bit 0 = chunked transfer encoding, bit 1 = lower-case header names
+    #[serde(default)]
+    pub delivery: u8,
 }
 
 pub struct BucketWorld {
@@ -97,6 +100,15 @@ pub struct BucketWorld {
 
 impl World for BucketWorld {
     fn handle(&mut self, req: &Request) -> Response {
+        let mut r = self.handle_inner(req);
+        r.chunked = self.case.delivery & 1 != 0;
+        r.lowercase_headers = self.case.delivery & 2 != 0;
+        r
+    }
+}
+
+impl BucketWorld {
+    fn handle_inner(&mut self, req: &Request) -> Response {
         self.log.push(req.clone());
         let prefix = req.query_value("prefix").unwrap_or("").to_string();
         let max_keys = req.query_value("max-keys").and_then(|v| v.parse::<usize>().ok());
@@ -326,6 +338,9 @@ pub struct DownloadCase {
     /// earlier listing; the returned identifier must carry the downloaded object's Last-Modified instead
     #[serde(default)]
     pub identifier_time: Option<i64>,
+    /// bit 0 = chunked transfer encoding (no Content-Length), bit 1 = lower-case header names
+    #[serde(default)]
+    pub delivery: u8,
 }
 
 pub struct ObjectWorld {
@@ -350,6 +365,8 @@ impl World for ObjectWorld {
         if c.cut_transfer && c.status == 200 {
             r.declared_length = Some(r.body.len() + 17);
         }
+        r.chunked = c.delivery & 1 != 0;
+        r.lowercase_headers = c.delivery & 2 != 0;
         r
     }
 }
@@ -505,9 +522,9 @@ fn list_case(max_objects: usize) -> impl Strategy<Value = ListCase> {
             prop_oneof![3 => Just(100usize), 2 => Just(1usize), 2 => 1usize..=20, 1 => Just(1000usize)],
             prop_oneof![9 => Just(false), 1 => Just(true)],
             any::<bool>(),
-            any::<bool>(),
+            (any::<bool>(), 0u8..4),
         )
-            .prop_map(move |(names, stamps, sizes, decoys_before, decoys_after, max_keys, force_truncated, pretty, extras)| ListCase {
+            .prop_map(move |(names, stamps, sizes, decoys_before, decoys_after, max_keys, force_truncated, pretty, (extras, delivery))| ListCase {
                 archive,
                 year,
                 month,
@@ -523,6 +540,7 @@ fn list_case(max_objects: usize) -> impl Strategy<Value = ListCase> {
                 pretty,
                 extras,
                 fault: fault.clone(),
+                delivery,
             })
     })
 }
@@ -547,9 +565,9 @@ fn download_case() -> impl Strategy<Value = DownloadCase> {
         prop_oneof![10 => Just(200u16), 3 => Just(404u16), 1 => Just(403u16), 1 => Just(500u16), 1 => Just(503u16), 1 => Just(206u16), 1 => Just(204u16)],
         body,
         prop_oneof![5 => (946_684_800i64..4_102_444_800).prop_map(LastModifiedHeader::Rfc2822), 1 => Just(LastModifiedHeader::Absent), 1 => Just(LastModifiedHeader::Garbage("yesterday".into())), 1 => Just(LastModifiedHeader::Garbage("2024-08-04T10:10:07Z".into()))],
-        (prop_oneof![12 => Just(false), 1 => Just(true)], prop_oneof![1 => Just(None), 1 => (946_684_800i64..4_102_444_800).prop_map(Some)]),
+        (prop_oneof![12 => Just(false), 1 => Just(true)], prop_oneof![1 => Just(None), 1 => (946_684_800i64..4_102_444_800).prop_map(Some)], 0u8..4),
     )
-        .prop_map(|(archive, tail, chunk, (year, month, day), hms, volume, status, body, last_modified, (cut_transfer, identifier_time))| DownloadCase {
+        .prop_map(|(archive, tail, chunk, (year, month, day), hms, volume, status, body, last_modified, (cut_transfer, identifier_time, delivery))| DownloadCase {
             archive,
             name_tail: if archive { tail } else { chunk },
             year,
@@ -562,6 +580,7 @@ fn download_case() -> impl Strategy<Value = DownloadCase> {
             last_modified,
             cut_transfer,
             identifier_time,
+            delivery,
         })
 }
 
@@ -578,6 +597,7 @@ pub fn classify_list(c: &ListCase) -> CaseInfo {
         .class(c.force_truncated || c.names.len() > if c.archive { 1000 } else { c.max_keys }, "truncated")
         .class(!c.decoys_before.is_empty() || !c.decoys_after.is_empty(), "decoys")
         .class(matches!(c.fault, ListFault::BadSize(..)), "bad-size")
+        .class(c.delivery & 1 != 0, "chunked-transfer-encoding")
 }
 
 pub fn run(ctx: &Ctx, rep: &mut Report) {
@@ -616,6 +636,7 @@ pub fn run(ctx: &Ctx, rep: &mut Report) {
                 .class(c.status != 200 && c.status != 404, "other-status")
                 .class(c.cut_transfer, "cut-transfer")
                 .class(!c.archive && c.identifier_time.is_some(), "identifier-already-timestamped")
+                .class(c.delivery & 1 != 0, "chunked-transfer-encoding")
                 .class(matches!(c.body, ObjectBody::StartChunk { len, .. } | ObjectBody::RecordChunk { len, .. } if len >= 100_000), "large-object")
                 .class(!c.name_tail.is_ascii() || c.name_tail.contains(' '), "name-needs-percent-encoding")
         },
@@ -625,6 +646,7 @@ pub fn run(ctx: &Ctx, rep: &mut Report) {
     rep.require_class("downloads", "other-status", 50);
     rep.require_class("downloads", "large-object", 10);
     rep.require_class("downloads", "identifier-already-timestamped", 50);
+    rep.require_class("downloads", "chunked-transfer-encoding", 50);
 }
 
 pub fn replay(sub: &str, case: &Value) -> Check {
